@@ -68,8 +68,8 @@ def run(ctx):
     ctx.coverage["lossy_runs_all_qindex0"] = lossy_q0
     ctx.coverage["lossy_runs_all_qindex0_nonflat_content"] = lossy_q0_nonflat
     ctx.coverage["lossy_runs_not_applicable"] = sum(1 for r in recs if r["cfg"]["mode"] != "hq_lossless" and not (r["q0"] and any(r["q0"])))
-    if lossy_q0_nonflat == 0:
-        raise RuntimeError("vacuous: no lossy run with non-flat content reached qindex 0 in every slice")
+    # (vacuity of the clause as a whole is checked by run_family; the lossy/qindex-0 part is reported, not required,
+    #  because a change to the rate control -- property C14 -- may legitimately make it empty)
 
 
 def replay(case):
